@@ -145,9 +145,9 @@ Definition list_cmd (E : env) (T : tables) (text : bytes) (offset : option bytes
           match res with
           | None => L_steps_failed (rev (c_diags c1))
           | Some steps =>
-              let skip := Z.to_nat (k - 1) in
-              if (length steps <=? skip)%nat then L_offset_too_large
-              else L_ok (list_lines (S skip) (skipn skip steps))
+              (* offset - 1 >= VECTOR_LENGTH(steps), compared as integers: the offset can be INT_MAX *)
+              if (Z.of_nat (length steps) <=? k - 1)%Z then L_offset_too_large
+              else let skip := Z.to_nat (k - 1) in L_ok (list_lines (S skip) (skipn skip steps))
           end
       end
   | r => L_offset_invalid r
